@@ -127,7 +127,7 @@ PROPS = {
         explanation="loop variant + step clauses + frames() lemmas.",
     ),
     "C07": dict(
-        specs=["packer", "avp", "avp_types", "avp_grouped", "base", "node_model", "peer", "helpers", "c20", "node"],
+        specs=["packer", "avp", "avp_types", "avp_grouped", "base", "node_model", "peer", "helpers", "c20", "node", "c13"],
         ground=[], replay=replay.generic,
         trusted_base=["queue model (ghost log g_put = every message ever queued on the connection)"],
         assumptions=COMMON_ASSUME + [
@@ -201,7 +201,7 @@ PROPS = {
         explanation="case postconditions over a virtual clock.",
     ),
     "C09": dict(
-        specs=["packer", "avp", "avp_types", "avp_grouped", "base", "node_model", "peer", "helpers", "c20", "family", "node"],
+        specs=["packer", "avp", "avp_types", "avp_grouped", "base", "node_model", "peer", "helpers", "c20", "family", "node", "c13"],
         ground=[], replay=replay.generic,
         trusted_base=[],
         assumptions=COMMON_ASSUME + [
